@@ -387,8 +387,24 @@ impl<T: CountMinValue> CountMinSketch<T> {
         }
 
         sketch.total_weight = read_value(&mut cursor, "total_weight")?;
+        if sketch.total_weight < T::ZERO {
+            return Err(Error::deserial("corrupted: negative total weight"));
+        }
+        let total_weight = sketch.total_weight;
         for count in &mut sketch.counts {
             *count = read_value(&mut cursor, "counts")?;
+            // the total is the sum of the absolute weights, so no counter lies outside
+            // [-total, total]; counters beyond it would overflow on the next update or merge
+            let in_range = if *count >= T::ZERO {
+                *count <= total_weight
+            } else {
+                total_weight.add(*count) >= T::ZERO
+            };
+            if !in_range {
+                return Err(Error::deserial(
+                    "corrupted: counter exceeds the total weight",
+                ));
+            }
         }
         Ok(sketch)
     }
